@@ -227,6 +227,10 @@ func (t *Transaction) rowsFromTransactionCacheAndDatabase(table string, where []
 			rows[rowUUID] = txnRow
 			// delete txnRows so that only inserted rows remain in txnRows
 			delete(txnRows, rowUUID)
+		} else if t.Cache.Table(table).HasRow(rowUUID) {
+			// the row has been updated in this transaction and it no
+			// longer matches the conditions
+			delete(rows, rowUUID)
 		} else {
 			// warm the transaction cache with the current contents of the row
 			if err := t.Cache.Table(table).Create(rowUUID, row, false); err != nil {
